@@ -42,7 +42,7 @@ OUTCOMES = {
     "unknown": [("nosuch", []), ("_priv", [1]), ("sub._hidden", None), ("no.such", {})],
     "badargs": [("two", []), ("two", [1, 2, 3]), ("noargs", [1]), ("two", {"c": 1}), ("kwonly", [1, 2])],
     "typeerror": [("failtype", [])],
-    "unconvertible": [("badresult", [])],
+    "unconvertible": [("badresult", []), ("badresult2", []), ("badresult3", [])],
 }
 
 
